@@ -111,6 +111,8 @@ package weshnet
 //@   ensures [C16.cm.group] result != nil && result.notify != nil && result.notify.L == addr(m.muState) && result.peers != nil
 //@     && unlocked(addr(result.notify.mu)) && has(m.groupState, gkey) && m.groupState[gkey] == result
 //@   ensures [C16.cm.group.inv] cmOK(m)
+//@   ensures [C16.cm.group.same] old(has(m.groupState, gkey)) ==> result == old(m.groupState[gkey])
+//@   ensures [C16.cm.group.new] !old(has(m.groupState, gkey)) ==> fresh(result) && fresh(result.notify) && fresh(result.peers)
 
 //@ func (*ConnectednessManager).getPeerStatus
 //@   for C16
@@ -120,17 +122,22 @@ package weshnet
 //@     && (forall g Bytes {has(result.groups, g)} :: has(result.groups, g) ==> result.groups[g] != nil && result.groups[g].notify != nil
 //@           && result.groups[g].notify.L == addr(m.muState) && unlocked(addr(result.groups[g].notify.mu)))
 //@   ensures [C16.cm.peer.inv] cmOK(m)
+//@   ensures [C16.cm.peer.same] old(has(m.peerState, peer)) ==> result == old(m.peerState[peer])
+//@   ensures [C16.cm.peer.new] !old(has(m.peerState, peer)) ==> fresh(result) && fresh(result.groups)
 
 //@ func (*ConnectednessManager).AssociatePeer
 //@   for C16
 //@   requires cmOK(m) && unlocked(addr(m.muState))
 //@   at (*Notify).Broadcast requires [C16.broadcast-under-L] locked(n.L)
+//@   modifies lockstate(addr(m.muState)), mapof(m.peerState), mapof(m.groupState), mapof(m.groupState[group].peers), mapof(m.peerState[peer].groups)
+//@   modifies m.groupState[group].notify.cc, lockstate(addr(m.groupState[group].notify.mu)), bcasts(m.groupState[group].notify)
 //@   ensures [C16.cm.associate.unlock] unlocked(addr(m.muState))
 
 //@ func (*ConnectednessManager).UpdateState
 //@   for C16
 //@   requires cmOK(m) && unlocked(addr(m.muState))
 //@   at (*Notify).Broadcast requires [C16.broadcast-under-L] locked(n.L)
+//@   modifies lockstate(addr(m.muState)), mapof(m.peerState), m.peerState[peer].status, every("berty.tech/weshnet/v2/internal/notify.Notify.cc"), every(bcasts), every(lockgen)
 //@   ensures [C16.cm.update.unlock] unlocked(addr(m.muState))
 //@   ensures [C16.cm.update.status] has(m.peerState, peer) && m.peerState[peer].status == update
 //@   loop 0 invariant locked(addr(m.muState)) && has(m.peerState, peer) && m.peerState[peer].status == update && cmOK(m) && sp == m.peerState[peer]
@@ -145,6 +152,8 @@ package weshnet
 //@ func (*ConnectednessManager).WaitForConnectednessChange
 //@   for C16
 //@   requires cmOK(m) && ctx != nil && current != nil && unlocked(addr(m.muState))
+//@   modifies lockstate(addr(m.muState)), mapof(m.groupState), mapof(current), cancelled(ctx)
+//@   modifies m.groupState[gkey].notify.cc, lockstate(addr(m.groupState[gkey].notify.mu)), waitreg(m.groupState[gkey].notify)
 //@   ensures [C16.cm.wait.unlock] unlocked(addr(m.muState))
 //@   ensures [C16.cm.wait.result] (ret1 ==> len(ret0) > 0) && (!ret1 ==> cancelled(ctx))
 //@   loop 0 invariant locked(addr(m.muState)) && (!ok ==> cancelled(ctx)) && sg != nil && sg.notify != nil && sg.notify.L == addr(m.muState) && unlocked(addr(sg.notify.mu)) && cmOK(m)
